@@ -579,6 +579,8 @@ fn main() {
         let ts = chrono::DateTime::<chrono::Utc>::from_timestamp(now0 as i64, 0).unwrap();
         // honest paths
         let mut honest: Vec<Case> = vec![];
+        // interface list of the path metadata per offered path (key: path tokens), for the C01 metadata oracle
+        let mut meta_ifs: std::collections::HashMap<String, Vec<(u64, u16)>> = std::collections::HashMap::new();
         for a in &spec.ases {
             for b in &spec.ases {
                 if a.ia == b.ia {
@@ -607,6 +609,9 @@ fn main() {
                 for p in paths.into_iter().take(take) {
                     let ScionDpPathView::Standard(v) = p.dp_path() else { continue };
                     let m = v.to_model();
+                    if let Some(ifs) = p.metadata().and_then(|md| md.interfaces.as_ref()) {
+                        meta_ifs.insert(path_tokens(&m), ifs.iter().map(|i| (i.interface.isd_asn.to_u64(), i.interface.id)).collect());
+                    }
                     let mut feats = vec![];
                     if m.segments.iter().any(|s| s.info_field.flags.contains(InfoFieldFlags::PEERING)) {
                         feats.push("peering");
@@ -631,6 +636,9 @@ fn main() {
                     for p in paths.into_iter().skip(first).take(take) {
                         let ScionDpPathView::Standard(v) = p.dp_path() else { continue };
                         let m = v.to_model();
+                        if let Some(ifs) = p.metadata().and_then(|md| md.interfaces.as_ref()) {
+                            meta_ifs.insert(path_tokens(&m), ifs.iter().map(|i| (i.interface.isd_asn.to_u64(), i.interface.id)).collect());
+                        }
                         let mut feats = vec!["random-beacon"];
                         if m.segments.iter().any(|s| s.info_field.flags.contains(InfoFieldFlags::PEERING)) {
                             feats.push("peering");
@@ -950,6 +958,24 @@ fn main() {
                     }
                 } else {
                     rep.hit("honest path delivered");
+                    // the walk used exactly the interfaces the path metadata lists, in order
+                    if !c.features.contains(&"reversed") {
+                        if let Some(want_ifs) = meta_ifs.get(&path_tokens(&c.path)) {
+                            let mut got: Vec<(u64, u16)> = vec![];
+                            for (at, iif, _b, act, _a) in obs.trace.iter() {
+                                if *iif != 0 {
+                                    got.push((*at, *iif));
+                                }
+                                if let Some(eg) = act.strip_prefix("next ").and_then(|x| x.parse::<u16>().ok()) {
+                                    got.push((*at, eg));
+                                }
+                            }
+                            rep.hit("walk compared with metadata interfaces");
+                            if &got != want_ifs {
+                                rep.spec_fail("C01:metadata-interfaces", &format!("path metadata lists interfaces {want_ifs:?}, the packet travelled over {got:?}"), case_json.clone());
+                            }
+                        }
+                    }
                     // the reply: reverse the path as it arrived and send it back from the destination
                     if !c.features.contains(&"reversed") {
                         if let Some(mut fp) = obs.final_path.clone() {
